@@ -521,7 +521,7 @@ fn fam_suffixes<F: FnMut(&'static str, &[u8])>(c: &CorpusCfg, f: &mut F) {
         let n: u64 = 1u64 << (8 * len);
         for v in 0..n {
             idx += 1;
-            if !c.mine(idx) {
+            if !c.mine(idx) || (c.level == 0 && idx % 5 != 0) {
                 continue;
             }
             for h in headers.iter() {
@@ -598,7 +598,7 @@ fn fam_ext<F: FnMut(&'static str, &[u8])>(c: &CorpusCfg, f: &mut F) {
             for &de in dset.iter() {
                 for &le in lset.iter() {
                     idx += 1;
-                    if !c.mine(idx) {
+                    if !c.mine(idx) || (c.level == 0 && (idx / c.nshards) % 211 != 0) {
                         continue;
                     }
                     let claimed: usize = match ln {
@@ -657,7 +657,7 @@ fn fam_ext<F: FnMut(&'static str, &[u8])>(c: &CorpusCfg, f: &mut F) {
 }
 
 fn fam_mutated<F: FnMut(&'static str, &[u8])>(c: &CorpusCfg, f: &mut F) {
-    let n_msgs = (c.budget / 400).max(4);
+    let n_msgs = if c.level == 0 { 2 } else { (c.budget / 400).max(4) };
     let mut r = Rng::new(mix(&[c.seed, c.shard, 0xC0DE]));
     let cfg = GenCfg { big: false, small: c.level == 0 };
     let mut buf: Vec<u8> = Vec::new();
@@ -672,10 +672,18 @@ fn fam_mutated<F: FnMut(&'static str, &[u8])>(c: &CorpusCfg, f: &mut F) {
         let mut l = 0usize;
         while l < b.len() {
             f("prefix", &b[..l]);
-            l += if l < 64 || b.len() - l <= 16 { 1 } else { 7 };
+            l += if c.level == 0 {
+                1 + b.len() / 24
+            } else if l < 64 || b.len() - l <= 16 {
+                1
+            } else {
+                7
+            };
         }
         // substitutions
-        let positions: Vec<usize> = if b.len() <= 120 {
+        let positions: Vec<usize> = if c.level == 0 {
+            (0..8).map(|_| r.usize_below(b.len().max(1))).collect()
+        } else if b.len() <= 120 {
             (0..b.len()).collect()
         } else {
             let mut ps: Vec<usize> = (0..40).collect();
@@ -803,6 +811,9 @@ fn fam_directed<F: FnMut(&'static str, &[u8])>(c: &CorpusCfg, f: &mut F) {
     // 16-bit length extension at the top of its range, with and without the bytes
     for (hi, lo) in [(0xfeu8, 0xf2u8), (0xfe, 0xf3), (0xff, 0xff), (0x00, 0x00)] {
         let claimed = ((hi as usize) << 8 | lo as usize) + 269;
+        if c.level == 0 && claimed > 1000 && hi != 0xff {
+            continue;
+        }
         let mut b = vec![0x40, 0x01, 0, 0, 0x0e, hi, lo];
         v.push(b.clone());
         b.extend(std::iter::repeat(0x33).take(claimed - 1));
